@@ -286,6 +286,94 @@ def case_group_exact(**p):
   return case
 
 
+# ---------------------------------------------------------------- B2: range-dominance steps land on their hyperplane
+def _rdom_steps(p, sizes):
+  from tensorflow_lattice.python import lattice_lib as ll
+  out = []
+  for t in p.get('rdom') or []:
+    for i in range(sizes[t[0]]):
+      for j in range(sizes[t[1]]):
+        out.append(('range_dominance %s v(%d,%d)' % (t, i, j), t, i, j,
+                    lambda w, t=t, i=i, j=j: ll._project_partial_range_dominance(w, sizes, tuple(t), (i, j))))
+  return out
+
+
+def _rdom_step_goal(w_flat, out_flat, mine, ne, lt, ge):
+  """Violation of the step lemma; (ne, lt, ge) build the comparisons (symbolic or numeric)."""
+  bad = []
+  touched = set()
+  for nm in mine:
+    a = nm[2]
+    supp = [k for k, ak in enumerate(a) if ak]
+    touched |= set(supp)
+    s0 = sum((w_flat[k] * a[k] for k in supp[1:]), w_flat[supp[0]] * a[supp[0]])
+    s1 = sum((out_flat[k] * a[k] for k in supp[1:]), out_flat[supp[0]] * a[supp[0]])
+    bad.append((lt(s0, 0), ne(s1, 0)))
+    for k in supp:
+      bad.append((ge(s0, 0), ne(out_flat[k], w_flat[k])))
+  for k in range(len(w_flat)):
+    if k not in touched:
+      bad.append((True, ne(out_flat[k], w_flat[k])))
+  return bad
+
+
+def case_rdom_step(**p):
+  """Range dominance is outside the nearest-point claim (its corner steps are oblique), but convergence of the
+  successive-projection scheme needs every per-vertex step to be a (possibly oblique) projection: a weight vector that
+  violates the vertex's constraint is moved exactly onto the constraint's hyperplane (neither short of it nor beyond),
+  one that satisfies it is left alone, and no weight outside the constraint's support moves."""
+  import tensorflow as tf
+  from tensorflow_lattice.python import lattice_lib as ll
+  sizes = list(p['sizes'])
+  n = int(np.prod(sizes))
+  case = Case(PROP, p['name'], {k: v for k, v in p.items() if k != 'name'})
+  case.encoded(ll._project_partial_range_dominance, ll._unstack_nd, ll._stack_nd)
+  q = dict(rdom=p['rdom'])
+  cons_fn = lambda w: all_cons(np.asarray(w, dtype=object).reshape(n, 1), sizes, 1, q)
+  norms = normals(cons_fn, (n,))
+  covered = set()
+  for label, t, i, j, call in _rdom_steps(p, sizes):
+    tr = Traced(call, [tf.TensorSpec(sizes, tf.float32)], name=label)
+    done, mism = tr.validate(np.random.default_rng(0), n=1)
+    case.meta['validation_points'] = case.meta.get('validation_points', 0) + done
+    sym.new_ctx()
+    w = sym.symbolic('w', tuple(sizes))
+    (out,) = tr.sym_run(w)
+    mine = [(k, nm) for k, nm in enumerate(norms)
+            if nm[0] == 'range_dominance' and tuple(nm[1][0]) == tuple(t) and nm[1][1][t[0]] == i and nm[1][1][t[1]] == j]
+    covered |= set(k for k, _ in mine)
+    wf, of = list(w.reshape(-1)), list(out.reshape(-1))
+    bad = _rdom_step_goal([_Lin(x) for x in wf], [_Lin(x) for x in of], [nm for _, nm in mine],
+                          ne=lambda a, b: sym.NE(_unlin(a), _unlin(b)), lt=lambda a, b: sym.GT(_unlin(b), _unlin(a)),
+                          ge=lambda a, b: sym.GE(_unlin(a), _unlin(b)))
+    goal = core.any_of([c2 if c1 is True else z3.And(c1, c2) for c1, c2 in bad])
+    case.solve('rdom-step-lands-on-hyperplane[%s]' % label, goal, witness=dict(w=w), timeout=60,
+               sig=dict(query='rdom-step', vertex=[i, j]), replay=dict(fn='rdom_step', params=dict(p, label=label)))
+    if (i, j) == (0, 0):
+      case.solve('twin:rdom-step-moves-something', core.neq_arrays(out, w), expect='sat', kind='twin', timeout=30)
+  missing = [k for k, nm in enumerate(norms) if nm[0] == 'range_dominance' and k not in covered]
+  case.record('rdom-steps-cover-every-constraint', 'unsat' if not missing and covered else 'sat', kind='structural',
+              sig=dict(query='cover'), replay=None, witness={}, note='%d constraints, %d uncovered' % (len(norms), len(missing)))
+  return case
+
+
+class _Lin(object):
+  """Thin arithmetic wrapper so that one goal builder serves symbolic elements (vf.sym) and floats."""
+
+  def __init__(self, v):
+    self.v = v
+
+  def __mul__(self, k):
+    return _Lin(sym.s_mul(self.v, Fraction(k)))
+
+  def __add__(self, o):
+    return _Lin(sym.s_add(self.v, o.v))
+
+
+def _unlin(x):
+  return x.v if isinstance(x, _Lin) else x
+
+
 # ---------------------------------------------------------------- C: recurrence invariants on the real loop body
 def case_body(**p):
   import tensorflow as tf
@@ -532,6 +620,21 @@ def replay(r):
         diff = float(np.max(np.abs(out - ref)))
         return dict(reproduced=bool(diff > tol), detail=dict(max_abs_diff_to_textbook_projection=diff, out=out.tolist(), ref=ref.tolist()))
     return dict(reproduced=False, detail='group not found')
+  if rp['fn'] == 'rdom_step':
+    q = dict(rdom=p['rdom'])
+    for label, t, i, j, call in _rdom_steps(p, sizes):
+      if label == p['label']:
+        out = call(tf.constant(w.reshape(sizes), tf.float32)).numpy().astype(np.float64)
+        cons_fn = lambda v: all_cons(np.asarray(v, dtype=object).reshape(n, 1), sizes, 1, q)
+        mine = [nm for nm in normals(cons_fn, (n,))
+                if nm[0] == 'range_dominance' and tuple(nm[1][0]) == tuple(t) and nm[1][1][t[0]] == i and nm[1][1][t[1]] == j]
+        fl = lambda a: [float(x) for x in a.reshape(-1)]
+        mine = [(nm[0], nm[1], [float(a) for a in nm[2]]) for nm in mine]
+        bad = _rdom_step_goal(fl(w), fl(out), mine, ne=lambda a, b: abs(a - b) > tol, lt=lambda a, b: a < b - tol,
+                              ge=lambda a, b: a >= b + tol)
+        hit = any((c1 is True or c1) and c2 for c1, c2 in bad)
+        return dict(reproduced=bool(hit), detail=dict(w=w.tolist(), out=out.tolist()))
+    return dict(reproduced=False, detail='step not found')
   units = p.get('units', 1)
   fam = _fam(p)
   N = p['N']
@@ -635,6 +738,12 @@ def cases(tier, seed):
     if not f.get('juni') and not (f.get('rdom') and len(f) == 3):
       nm = 'groups-%s' % tag
       out.append(dict(name=nm, fn='case_group_exact', params=dict(f, name=nm), cap=600))
+  for tag, f in (('rstep23', dict(sizes=[2, 3], rdom=[[0, 1]])), ('rstep32', dict(sizes=[3, 2], rdom=[[0, 1]])),
+                 ('rstep33', dict(sizes=[3, 3], rdom=[[0, 1], [1, 0]])), ('rstep232', dict(sizes=[2, 3, 2], rdom=[[1, 0], [2, 1]])),
+                 ('rstep42', dict(sizes=[4, 2], rdom=[[1, 0]]))) + \
+      ((('rstep243', dict(sizes=[2, 4, 3], rdom=[[0, 1], [2, 1], [1, 2]])),) if tier != 'quick' else ()):
+    nm = 'rdomstep-%s' % tag
+    out.append(dict(name=nm, fn='case_rdom_step', params=dict(f, name=nm), cap=600))
   for f in CONV:
     f = dict(f)
     tag = f.pop('tag')
